@@ -209,6 +209,10 @@ func (o *OrderedCollection) Count() uint {
 // Append adds an element to an the receiver collection object.
 func (o *OrderedCollection) Append(it ...Item) error {
 	for _, ob := range it {
+		if IsNil(ob) {
+			// nothing to append
+			continue
+		}
 		if o.OrderedItems.Contains(ob) {
 			continue
 		}
